@@ -597,7 +597,7 @@ def main(argv=None):
     per_sub = {}
     all_hashes = {}
     for s in subs:
-        per_sub[s.name] = dict(kind=s.kind, rule=s.rule, evaluations=0, nontrivial=0, distinct_nontrivial=0, skipped=0, labels=collections.Counter(), samples=[], exhaustive=bool(s.exhaustive), shards=0, wall_s=0.0, excluded_known={}, stopped_early=False)
+        per_sub[s.name] = dict(kind=s.kind, rule=s.rule, evaluations=0, nontrivial=0, distinct_nontrivial=0, skipped=0, labels=collections.Counter(), samples=[], exhaustive=bool(s.exhaustive[a.tier] if isinstance(s.exhaustive, dict) else s.exhaustive), shards=0, wall_s=0.0, excluded_known={}, stopped_early=False)
         all_hashes[s.name] = set()
     for r in results:
         ps = per_sub[r.sub]
